@@ -198,11 +198,46 @@ func dedupDelta(ds []delta) []delta {
 }
 
 func runC08(e *Engine, r *Report, tier string) {
-	r.Explanation = "C08, structural necessary conditions. R1 (signed-operation balance): for every conversion routine — an fx-core function that, with its fx-core callees inlined, performs both a bank value operation and an ERC-20 value operation — on every success path the change of the coin escrow (erc20 module account and the wrapper contract) equals the change of the ERC-20 supply, and the change of the module's ERC-20 escrow equals the change of the coin supply (operations: account->escrow +1, escrow->account -1, mint coins +escrow +supply, burn coins -escrow -supply, token mint/burn, token transfer to/from the module); every operation's amount is rooted in the routine's single amount parameter; coins are taken only from the sender parameter and paid only to the receiver parameter; R2 no keeper-level EVM execution (a fresh committed StateDB) is reachable from the native-action closure of a precompile — token calls under a live EVM must go through the running EVM; R3 the pair record and its by-denom / by-contract indexes (erc20 0x01,0x02,0x03) are written and deleted only together, a lone write of 0x01 only re-stores a pair that was just read; R4 the blocked-address test of a conversion is applied to the message's receiver. Not decided: contract bytecode, ERC-20 balances summing to supply, arbitrary histories."
+	r.Explanation = "C08, structural necessary conditions. R1 (signed-operation balance): for every conversion routine — an fx-core function that, with its fx-core callees inlined, performs both a bank value operation and an ERC-20 value operation — on every success path the change of the coin escrow (erc20 module account and the wrapper contract) equals the change of the ERC-20 supply, and the change of the module's ERC-20 escrow equals the change of the coin supply (operations: account->escrow +1, escrow->account -1, mint coins +escrow +supply, burn coins -escrow -supply, token mint/burn, token transfer to/from the module); every operation's amount is rooted in the routine's single amount parameter; coins are taken only from the sender parameter and paid only to the receiver parameter; R2 no keeper-level EVM execution (a fresh committed StateDB) is reachable from the native-action closure of a precompile — token calls under a live EVM must go through the running EVM; R3 the pair record and its by-denom / by-contract indexes (erc20 0x01,0x02,0x03) are written and deleted only together, a lone write of 0x01 only re-stores a pair that was just read; R4 the blocked-address test of a conversion is applied to the message's receiver; R5 every classifier of the IBC-voucher namespace (HasPrefix/TrimPrefix with a constant starting with `ibc`) tests the full prefix `ibc/` — siblings that decide lock-vs-burn and the backing escrow must agree on what a voucher is. Not decided: contract bytecode, ERC-20 balances summing to supply, arbitrary histories."
 	r.Rule("R1", "per success path: Δescrow = ΔtokenSupply and ΔtokenEscrow = ΔcoinSupply; single amount; sender debited, receiver credited", 5, "conversion routines found by their operations")
 	r.Rule("R2", "no nested keeper-level EVM under a precompile native action", 1, "ExecuteNativeAction closures")
 	r.Rule("R3", "token-pair record and indexes co-written", 3, "writers of erc20:01/02/03")
 	r.Rule("R4", "blocked-address test applies to the receiver", 2, "conversion handlers")
+	r.Rule("R5", "every test for the IBC-voucher denomination namespace uses the full prefix `ibc/`", 5, "HasPrefix/TrimPrefix sites with a constant starting with ibc")
+	{
+		// siblings: the classifiers that decide lock-vs-burn and which escrow backs a denomination all ask "is this an IBC
+		// voucher (ibc/<hash>)?"; a site testing a shorter constant also captures ordinary denominations such as `ibcx`
+		nsites := 0
+		for _, fn := range e.Funcs {
+			if isAuxPkg(fnPkgPath(fn)) {
+				continue
+			}
+			allCalls(fn, func(c ssa.CallInstruction) {
+				n := callName(c)
+				if n != "HasPrefix" && n != "TrimPrefix" && n != "CutPrefix" {
+					return
+				}
+				a := c.Common().Args
+				if len(a) != 2 {
+					return
+				}
+				pfx, ok := constString(a[1])
+				if !ok || !strings.HasPrefix(pfx, "ibc") {
+					return
+				}
+				nsites++
+				ck := e.FnKey(fn) + " " + n + "(" + regNames.ReplaceAllString(vkey(a[0], 0), "") + ")"
+				if pfx == "ibc/" {
+					r.Ok("R5", ck, e.InstrPos(c), "tests the prefix `ibc/`")
+				} else {
+					r.Fail("R5", ck, e.InstrPos(c), fmt.Sprintf("tests the prefix %q while the sibling classifiers test `ibc/`: a denomination that merely starts with %q is treated as an IBC voucher here and as an ordinary denomination elsewhere (lock-vs-burn and escrow decisions diverge)", pfx, pfx))
+				}
+			})
+		}
+		if nsites == 0 {
+			r.Fail("R5", "ibc-prefix-sites", "", "UNRESOLVED-ANCHOR: no IBC-voucher prefix test found")
+		}
+	}
 
 	memo := map[*ssa.Function][]delta{}
 	nconv := 0
